@@ -27,7 +27,7 @@ RULE = ("each case = one bundle spec (biased to dated schedules, crops deeper th
         "the completed run was preceded by at least one earlier use of the same objects; distinct = distinct (configuration "
         "signature, history prefix)")
 ASSUMPTIONS = ["after an abandon or injected crash only the *restarted* run is compared (the abandoned one is dropped)"]
-PROFILE = {"irr_methods": [0, 1, 2, 3, 3, 3, 4, 5], "calendar_crop_p": 0.5, "custom_soil_p": 0.25, "co2_p": 0.4, "n_seasons": [1, 1, 2],
+PROFILE = {"irr_methods": [0, 1, 2, 3, 3, 3, 4, 5], "calendar_crop_p": 0.5, "custom_soil_p": 0.4, "co2_p": 0.4, "n_seasons": [1, 1, 2],
            "switchgdd_p": 0.1, "events_per_year": 1.0, "gw": 0.35, "field_p": 0.3, "end_kinds": ["after", "after", "eoy"]}
 
 
